@@ -364,6 +364,7 @@ func (fr *Frame) callTypeContract(tc *Contract, fv Val, args []Val, st *State, r
 		fr.bindFailure(&Clause{Kind: "modifies", Text: tc.Key}, err)
 		c.havocAll(st)
 	} else {
+		ms.preserve = append(ms.preserve, tc.Preserves...)
 		c.applyHavoc(st, old, ms, true)
 	}
 	var results []Val
@@ -786,8 +787,12 @@ func (e *Engine) instrEffects(sc *FnCtx, fn *ssa.Function, in ssa.Instruction, e
 			eff.ghost["received"] = true
 		}
 	case *ssa.Call:
+		if _, isBuiltin := x.Common().Value.(*ssa.Builtin); !isBuiltin {
+			eff.ghost["calls"] = true
+		}
 		e.callEffects(sc, fn, x.Common(), eff, depth, fr)
 	case *ssa.Defer:
+		eff.ghost["calls"] = true
 		e.callEffects(sc, fn, x.Common(), eff, depth, fr)
 	case *ssa.Go:
 		// not modelled
@@ -855,6 +860,22 @@ func (e *Engine) callEffects(sc *FnCtx, fn *ssa.Function, cc *ssa.CallCommon, ef
 		}
 		return
 	case *ssa.Function:
+		if callee.Blocks == nil || !e.inScope(callee) {
+			if externalModels[callee.String()] == nil && e.contractOf(callee) == nil {
+				pk := ""
+				if callee.Pkg != nil {
+					pk = callee.Pkg.Pkg.Path()
+				} else if callee.Object() != nil && callee.Object().Pkg() != nil {
+					pk = callee.Object().Pkg().Path()
+				}
+				if isPureLibPkg(pk) && !isReadOnlyLibPkg(pk) {
+					// may write what its arguments point to (see Frame.havocPointee)
+					for _, a := range cc.Args {
+						e.pointeeEffects(sc, a, eff)
+					}
+				}
+			}
+		}
 		e.staticCalleeEffects(sc, callee, eff, depth)
 		return
 	case *ssa.MakeClosure:
@@ -964,6 +985,35 @@ func (e *Engine) staticCalleeEffects(sc *FnCtx, callee *ssa.Function, eff *Effec
 		return
 	}
 	eff.setAll(nil)
+}
+
+// pointeeEffects: the heap components an external callee may write through argument a (one level, by type).
+func (e *Engine) pointeeEffects(sc *FnCtx, a ssa.Value, eff *Effects) {
+	t := a.Type()
+	if mi, ok := a.(*ssa.MakeInterface); ok {
+		t = mi.X.Type()
+	}
+	switch u := t.Underlying().(type) {
+	case *types.Pointer:
+		et := u.Elem()
+		if st0, ok := et.Underlying().(*types.Struct); ok {
+			for i := 0; i < st0.NumFields(); i++ {
+				eff.heap(sc.fieldHeap(et, i))
+			}
+			return
+		}
+		if arr, ok := et.Underlying().(*types.Array); ok {
+			eff.heap(sc.elemHeap(arr.Elem()))
+			return
+		}
+		eff.heap(sc.cellHeap(et))
+		eff.heap(sc.elemHeap(et))
+		for _, fc := range e.fieldsOfType(et) {
+			eff.heap(sc.fieldHeap(fc.st, fc.idx))
+		}
+	case *types.Slice:
+		eff.heap(sc.elemHeap(u.Elem()))
+	}
 }
 
 // contractEffects: heap components named by a contract's modifies clauses.
